@@ -81,7 +81,9 @@ WMin(a, b) == IF WLt(a, b) THEN a ELSE b
 
 RECURSIVE NatMag(_)
 NatMag(n) == IF n = 0 THEN <<>> ELSE <<n % B>> \o NatMag(n \div B)
-W(n) == IF n >= 0 THEN Mk(1, NatMag(n)) ELSE Mk(-1, NatMag(-n))     \* native -> wide (|n| < 2^31)
+W(n) == IF n >= 0 THEN Mk(1, NatMag(n))
+        ELSE IF n = -2147483647 - 1 THEN <<-1, 3648, 4748, 21>>          \* -2^31 cannot be negated natively
+        ELSE Mk(-1, NatMag(-n))                                           \* native -> wide
 
 WMulSmall(a, k) == IF k >= 0 THEN Mk(a[1], MMul(Mag(a), k)) ELSE Mk(-a[1], MMul(Mag(a), -k))
 
